@@ -2,6 +2,7 @@ import Proofs.C15Paging
 import Proofs.C15Hist
 import Proofs.C15Retry
 import Proofs.C15Walk
+import Proofs.C15First
 /-!
 # C15 — paged iteration yields every row exactly once, in order, and then stops
 
@@ -614,6 +615,66 @@ example :
     w9.it.out = [1, 2, 3, 4, 5, 6] ∧ w9.it.reqs.length = 3 ∧
     (Walk.scan1 ppOf .scan w9).2 = false := by
   decide
+
+
+/-! ## The single-row helpers Query.Scan / Query.MapScan / Query.Exec on a paged statement (`Model/PagingFirst.lean`)
+
+Full property:  ∀ script q,  Query.Scan / MapScan hand over the FIRST ROW OF THE RESULT (`Spec.rows script`) with
+a nil error, and report ErrNotFound only if the result has no row at all (a failure that ends an empty
+result is reported as that failure) — `((queryScan pp script q).row, (queryScan pp script q).err) =
+First.Spec.first script`.  This does NOT hold on the unchanged code: Iter.checkErrAndNotFound looks at the row
+count of the FIRST PAGE only (`iter.numRows == 0`), so an EMPTY first page that says has_more_pages (Cassandra
+sends such pages, e.g. under ALLOW FILTERING or over tombstones) makes Query.Scan answer ErrNotFound although
+rows follow on the next page. Hence `C15_query_scan_partial` with the hypothesis `FirstPageDecides`, and the
+counterexample `C15_cex_first_empty_page` (proposed finding KF-C15-4, fix props/C15.fix-4.diff). -/
+
+open Paging.First in
+/-- **Query.Scan / Query.MapScan = first row of the result** (partial: the first page is not an empty page with
+    has_more_pages): for every script (UNPREPARED answers first, a failure, any pages), every query: the row
+    handed over is the head of the specification's rows and the error is nil; no row in the whole result:
+    the failure that ended it, else ErrNotFound. -/
+theorem C15_query_scan_partial (pp : Nat → Nat) (script : List Reply) (q : Qry) (hd : FirstPageDecides script) :
+    ((queryScan pp script q).row, (queryScan pp script q).err) = First.Spec.first script := by
+  have h := queryScan_spec pp script false q hd
+  unfold queryScan
+  cases he : (Hist.connExec pp script false q).iter.err with
+  | some e => simp only [he] at h ⊢; exact h
+  | none =>
+    simp only [he] at h ⊢
+    cases hr : (Hist.connExec pp script false q).iter.rows with
+    | nil => simp only [hr] at h ⊢; exact h
+    | cons a as => simp only [hr] at h ⊢; exact h
+
+open Paging.First in
+/-- counterexample to the unrestricted statement (KF-C15-4): page 1 is empty with has_more_pages, page 2 holds
+    row 5: Query.Scan reports ErrNotFound and hands over nothing, the first row of the result is 5 -/
+theorem C15_cex_first_empty_page :
+    let q : Qry := { ident := 1, prepared := false, skipMeta := false, pageSize := 0, pageState := [], disableAutoPage := false }
+    let script : List Reply := [.page [] (some [1]), .page [5] none]
+    (queryScan (fun _ => 0) script q).row = none ∧ (queryScan (fun _ => 0) script q).err = some .notFound ∧
+    First.Spec.first script = (some 5, none) ∧ ¬ FirstPageDecides script := by
+  intro q script
+  exact ⟨by decide, by decide, by decide, by simp [script, FirstPageDecides]⟩
+
+open Paging.First in
+/-- **Query.Exec reports the outcome of the first fetch** (after any UNPREPARED round trips), for every script -/
+theorem C15_exec_first_fetch (pp : Nat → Nat) (script : List Reply) (q : Qry) :
+    (queryExec pp script q).err = (First.Spec.execErr script).map .fail ∧ (queryExec pp script q).row = none := by
+  refine ⟨?_, rfl⟩
+  unfold queryExec
+  simp only []
+  rw [queryExec_spec pp script false q]
+
+/-- non-vacuity: UNPREPARED first, then a page with rows 7,8 and has_more_pages: row 7, no error, and the
+    requests are PREPARE, EXECUTE, PREPARE, EXECUTE — nothing is asked for page 2 -/
+example :
+    let q : Qry := { ident := 1, prepared := true, skipMeta := true, pageSize := 10, pageState := [], disableAutoPage := false }
+    let script : List Reply := [.unprepared, .page [7, 8] (some [1]), .page [9] none]
+    First.FirstPageDecides script ∧
+    First.queryScan (fun n => n / 2) script q =
+      ⟨some 7, none, [.prepare, .exec 1 true true none (some 10), .prepare, .exec 1 true true none (some 10)]⟩ := by
+  intro q script
+  exact ⟨by simp [script, First.FirstPageDecides], by decide⟩
 
 
 end C15
